@@ -75,5 +75,16 @@ def main():
     check("PL: P(a,b,c) = .5 * .3/.5", abs(pl[("a", "b", "c")] - 0.5 * 0.6) < 1e-15 and abs(sum(pl.values()) - 1) < 1e-12)
     bt = gens.bt_table({"a": 0.75, "b": 0.25})
     check("BT on two candidates: P(a>b) = .75", abs(bt[("a", "b")] - 0.75) < 1e-15)
+    # --- scripted RNG: integer part of a scaled uniform -----------------------------------------------------------
+    from engine import chooser
+    import math
+
+    law = {}
+    for p in chooser.explore_all(lambda: (int(chooser.s_random() * 3), math.floor(chooser.s_uniform(0, 1) * 4 + 0.5))):
+        law[p.result] = law.get(p.result, 0) + p.prob
+    m1 = {k: sum(v for (a, _), v in law.items() if a == k) for k in range(3)}
+    m2 = {k: sum(v for (_, b), v in law.items() if b == k) for k in range(5)}
+    check("lazy uniform: int(u*3) is uniform on {0,1,2}; floor(4u+1/2) has law (1/8,1/4,1/4,1/4,1/8)",
+          m1 == {0: F(1, 3), 1: F(1, 3), 2: F(1, 3)} and m2 == {0: F(1, 8), 1: F(1, 4), 2: F(1, 4), 3: F(1, 4), 4: F(1, 8)})
     print("selftest:", "all ok" if not fails else f"{len(fails)} FAILED")
     return 1 if fails else 0
